@@ -22,8 +22,8 @@ META = {
                    "(cumulative chord sum) and getDistance (interpolation weights) on 3-4 point polylines.",
     "bounds": "chains of 2 regions, nx=1, ny=2 (5 points per contour); distances strictly increasing reals; FineContour with 3-4 points on a straight line for getDistance",
     "out": "that the FineContour distances are the true arc length (chord-sum discretisation, equaliseSpacing convergence, quadratic convergence in finecontour_Nfine)",
-    "assumptions": ["PsiContour.get_distance returns the stub's strictly increasing symbolic array (its own guard contract is decided under C10)",
-                    "contours of regions that have a lower y-connection start at their first grid point with distance 0 (no extension below an X-point join)"],
+    "assumptions": ["PsiContour.get_distance returns the stub's strictly increasing symbolic array (its own guard contract is decided under C10); the offset of "
+                    "that array (distance of the contour's first point from the first point of its fine contour) is arbitrary for every region of a chain"],
 }
 
 
